@@ -27,6 +27,7 @@ type PropDef struct {
 	Level      string // evidence level (default "proof")
 	Notes      []string
 	TimeoutS   int // per-query solver timeout of the quick tier (default 10)
+	NoCone     bool // `nocone`: do not verify the contracted callees of the listed functions as part of this check
 }
 
 func loadProp(id string) (*PropDef, error) {
@@ -67,6 +68,8 @@ func loadProp(id string) (*PropDef, error) {
 			p.Notes = append(p.Notes, rest)
 		case "timeout":
 			fmt.Sscanf(rest, "%d", &p.TimeoutS)
+		case "nocone":
+			p.NoCone = true
 		default:
 			return nil, fmt.Errorf("%s:%d: unknown keyword %q", path, n+1, kw)
 		}
@@ -223,6 +226,46 @@ func runCheck(id, tier string, seed int, overlay map[string][]byte, writeEvidenc
 		}
 		e.obls = append(e.obls, f(e)...)
 	}
+	// cone closure: the proofs above APPLY the contracts of their callees; a property's check is only self-contained if
+	// those callees are verified here as well (transitively). A callee all of whose clauses are `trusts` has nothing to
+	// verify and stays an assumption (listed under trusted_clauses).
+	autoCone := map[string]bool{}
+	if !prop.NoCone {
+		listed := map[string]bool{}
+		for _, f := range prop.Funcs {
+			listed[resolveFuncArgQuiet(w, f)] = true
+		}
+		for changed := true; changed; {
+			changed = false
+			for _, k := range sortedKeys(e.contractCalls) {
+				if listed[k] || strings.HasPrefix(k, "iface:") {
+					continue
+				}
+				fc := w.Contract[k]
+				if fc == nil || fc.IsExtern {
+					continue
+				}
+				fn := w.LookupFunc(k)
+				if fn == nil || fn.Blocks == nil {
+					continue
+				}
+				checked := false
+				for _, en := range fc.Ensures {
+					if en.Known != "trusted" {
+						checked = true
+					}
+				}
+				if !checked {
+					continue
+				}
+				listed[k] = true
+				autoCone[shortKey(k)] = true
+				fucs = append(fucs, shortKey(k))
+				e.VerifyFunc(k)
+				changed = true
+			}
+		}
+	}
 	// orphan contracts: a contract whose function no longer exists is an error of its own
 	for _, k := range sortedKeys(w.Contract) {
 		fc := w.Contract[k]
@@ -279,7 +322,7 @@ func runCheck(id, tier string, seed int, overlay map[string][]byte, writeEvidenc
 			}
 			continue
 		}
-		if len(g.Props) > 0 && !containsStr(g.Props, id) {
+		if len(g.Props) > 0 && !containsStr(g.Props, id) && !(autoCone[g.Func] && untaggedClause(w, g)) {
 			// a clause owned by other properties (tagged [Cxx]) in a shared function: reported by their checks
 			foreign = append(foreign, g.Name+" ("+strings.Join(g.Props, ",")+")")
 			continue
